@@ -165,6 +165,17 @@ func c17Value(r *rand.Rand, in *c17Inst) reflect.Value {
 	return v
 }
 
+// c17Shared is a top-level struct type common to all instances
+var c17Shared = reflect.TypeOf(struct {
+	V  Marked    `plenc:"1"`
+	S  []Marked  `plenc:"2"`
+	N  MarkStr   `plenc:"3"`
+	T  time.Time `plenc:"4"`
+	SS []string  `plenc:"5"`
+	P  *Marked   `plenc:"6"`
+	T1 Marked    `plenc:"7,m1"`
+}{})
+
 func c17Case(c *core.Ctx, idx int) {
 	rec := c.Rec
 	r := c.Rand(idx)
@@ -176,6 +187,7 @@ func c17Case(c *core.Ctx, idx int) {
 	}
 	type job struct {
 		in        *c17Inst
+		typ       reflect.Type
 		v         reflect.Value
 		want      []byte
 		failFirst *c17Inst // an instance on which a failing build is attempted just before this job
@@ -185,7 +197,16 @@ func c17Case(c *core.Ctx, idx int) {
 	for j := 0; j < nj; j++ {
 		in := insts[r.IntN(n)]
 		v := c17Value(r, in)
-		jb := job{in: in, v: v, want: in.expect(v)}
+		jb := job{in: in, typ: in.typ, v: v, want: in.expect(v)}
+		if r.IntN(4) == 0 {
+			// a top-level type that every instance knows (host types differ from instance to instance):
+			// the marked struct, the named string, a struct around them
+			st := []reflect.Type{markedT, markStrT, c17Shared}[r.IntN(3)]
+			if in.cfg.Validate(st, "") == "" {
+				sv := (&gen.VG{R: r, C: model.Cfg{ProtoArrays: in.cfg.ProtoArrays, ProtoTime: in.cfg.ProtoTime}, Budget: 20}).Value(st, "")
+				jb = job{in: in, typ: st, v: sv, want: in.expect(sv)}
+			}
+		}
 		if r.IntN(3) == 0 {
 			jb.failFirst = insts[r.IntN(n)]
 		}
@@ -214,13 +235,13 @@ func c17Case(c *core.Ctx, idx int) {
 		}
 		got, err, pn := marshal(j.in.p, nil, ptrTo(j.v))
 		if err != nil || pn != "" {
-			return fmt.Sprintf("%s: Marshal %v %s\n  type %s", j.in.name, err, pn, typeString(j.in.typ))
+			return fmt.Sprintf("%s: Marshal %v %s\n  type %s", j.in.name, err, pn, typeString(j.typ))
 		}
 		if !bytes.Equal(got, j.want) {
-			return fmt.Sprintf("%s produced bytes that its own options and registrations do not explain\n  got  %s\n  want %s\n  type %s\n  value %s\n  registrations %v", j.in.name, hexHead(got), hexHead(j.want), typeString(j.in.typ), model.Show(j.v), j.in.ids)
+			return fmt.Sprintf("%s produced bytes that its own options and registrations do not explain\n  got  %s\n  want %s\n  type %s\n  value %s\n  registrations %v", j.in.name, hexHead(got), hexHead(j.want), typeString(j.typ), model.Show(j.v), j.in.ids)
 		}
 		// and it reads its own output back (marker codecs reject foreign bytes)
-		out := reflect.New(j.in.typ)
+		out := reflect.New(j.typ)
 		if err, pn := unmarshal(j.in.p, got, out.Interface()); err != nil || pn != "" {
 			return fmt.Sprintf("%s: Unmarshal of its own output: %v %s", j.in.name, err, pn)
 		}
@@ -230,7 +251,9 @@ func c17Case(c *core.Ctx, idx int) {
 	rec.Count("instances", n)
 	extra := map[string]any{"instances": n}
 	var fail string
-	if c.Lane == "race" {
+	if c.Lane == "race" || idx%3 == 1 {
+		// the jobs of all instances from 4 goroutines at once (every third trial of the plain lane too)
+		rec.Count("concurrent_trials", 1)
 		var mu sync.Mutex
 		var wg sync.WaitGroup
 		for w := 0; w < 4; w++ {
